@@ -27,7 +27,8 @@ def bfs(ctx, layer, model, depth, chunk=4, isolate=True):
 
     frontier = [[]]
     seen = {}
-    root = model.run([])
+    # the parent process never executes implementation code itself: every child forked from it starts pristine
+    root = isolated(model.run, []) if isolate else model.run([])
     seen[jhash(root["canon"])] = []
     states, transitions, dedup, maxd = 1, 0, 0, 0
     samples = []
